@@ -51,6 +51,7 @@ DISP = 'yash_env::system::signal::Disposition'
 # ----------------------------------------------------------------- shared helpers
 # (candidates for promotion into ycheck/mirq.py; C11.py and C13.py import them from here)
 POLL = ['*::Future::poll', 'core::future::future::Future::poll']
+FUTURE_WRAPPERS = [re.compile(r'^alloc::boxed::Box::<T>::(pin|new)$'), re.compile(r'^core::pin::Pin::<Ptr>::new$')]
 
 
 def await_done(F, body, du, call_term):
@@ -61,6 +62,10 @@ def await_done(F, body, du, call_term):
         if not pt['a']:
             continue
         src = Q.value_source(body, du, pt['a'][0])
+        hops = 0
+        while src is not None and src is not call_term and Q.callee_is(src, FUTURE_WRAPPERS) and src['a'] and hops < 4:
+            src = Q.value_source(body, du, src['a'][0])      # Box::pin(fut).await
+            hops += 1
         if src is not call_term:
             continue
         ec = Q.edge_condition(F, body, du, pt['to'])
@@ -520,6 +525,8 @@ def r3(cx):
     aggs = Q.find_aggregates(b2, ESO)
     cx.require(aggs, 'no EnterSubshellOption constructed in TrapSet::enter_subshell')
     FLAG1, FLAG2 = 'ignore_sigint_sigquit', 'keep_internal_dispositions_for_stoppers'
+    pnames = [p_.get('name') for p_ in F.hir_of(fn2)['params']]
+    cx.require(FLAG1 in pnames and FLAG2 in pnames, 'parameters %s / %s of TrapSet::enter_subshell not found (%s)' % (FLAG1, FLAG2, pnames))
     n_keep = 0
     for b, j, s in aggs:
         v = s['rv']['variant']
